@@ -648,4 +648,83 @@ theorem exampleOps2_wf : WellFormedBuild World.init exampleOps2 := by
 
 example : (run World.init exampleOps2).committed.iteration = 1 ∧ (run World.init exampleOps2).committed.rows.length = 1 := by decide
 
+/-! ### one transaction per build: between `buildStarted` and `buildComplete` nothing reaches the file
+
+The model moves `pending` to `committed` only in `complete` (and `open` commits only the schema it creates).  That is
+the code's behaviour iff no function other than `open` / `buildStarted` / `buildComplete` executes a transaction-control
+statement, a PRAGMA, or reaches sqlite3 through an API the model does not describe; the extractor lists all of these
+for the whole of SQLiteBuildDB.cpp on every run (`Generated.SQLiteDB.txnControl`, `sqlArgsNotLiteral`, `sqliteCalls`). -/
+
+/-- what the engine calls on the build's own connection between `buildStarted` and `buildComplete` -/
+def MidBuildOp (c : Nat) : Op → Prop
+  | .epoch c' | .setiter c' _ | .start c' | .set c' _ _ | .lookup c' _ | .keys c' => c' = c
+  | _ => False
+
+theorem ensureOpen_holder {w : World} {c : Nat} {cn : Conn} (hl : w.lock = some c) (hst : cn.state = .inTxn) :
+    ensureOpen w c cn = .ok (w, cn) := by
+  unfold ensureOpen blocked
+  simp [hl, hst]
+
+/-- "single transaction per build" (the window the property is about: results stamped with epoch N+1 while the stored
+epoch is still N must not become durable before the epoch does).  (1) The source has exactly the transaction shape the
+model assumes: `BEGIN EXCLUSIVE` / `END` in `open` around the schema creation, `BEGIN EXCLUSIVE` in `buildStarted`,
+`END` in `buildComplete`, and no transaction control, PRAGMA, non-literal SQL or further sqlite3 API anywhere else.
+(2) In the model, no operation of a build on its connection between `start` and `complete` — any number of
+`setRuleResult`, `setCurrentIteration`, lookups, key enumerations — changes what a killed process leaves behind, and the
+connection stays inside its transaction holding the lock. -/
+theorem C04_one_transaction_per_build :
+    txnShapeOK = true ∧
+    ∀ (w : World) (c : Nat) (cn : Conn) (op : Op), w.conns c = some cn → cn.state = .inTxn → w.lock = some c → MidBuildOp c op →
+      (step w op).1.committed = w.committed ∧ (step w op).1.lock = some c ∧
+      ∃ cn', (step w op).1.conns c = some cn' ∧ cn'.state = .inTxn := by
+  refine ⟨by decide, ?_⟩
+  intro w c cn op hc hst hl hop
+  have ho := ensureOpen_holder (w := w) (c := c) hl hst
+  cases op with
+  | reset => exact hop.elim
+  | new _ _ _ => exact hop.elim
+  | drop _ => exact hop.elim
+  | crash => exact hop.elim
+  | complete _ => exact hop.elim
+  | epoch c' =>
+    cases (show c' = c from hop)
+    simp only [step, withOpen, hc, ho]
+    exact ⟨rfl, hl, cn, if_pos rfl, hst⟩
+  | setiter c' n =>
+    cases (show c' = c from hop)
+    simp only [step, withOpen, hc, ho, putView, hst, ↓reduceIte]
+    exact ⟨rfl, hl, _, if_pos rfl, rfl⟩
+  | start c' =>
+    cases (show c' = c from hop)
+    simp only [step, withOpen, hc, ho, hst, ↓reduceIte]
+    exact ⟨rfl, hl, cn, if_pos rfl, hst⟩
+  | set c' k r =>
+    cases (show c' = c from hop)
+    have hs := applySet_state cn (view w cn) k r
+    simp only [step, withOpen, hc, ho, putView, hs, hst, ↓reduceIte]
+    exact ⟨rfl, hl, _, if_pos rfl, rfl⟩
+  | lookup c' k =>
+    cases (show c' = c from hop)
+    have hs := (applyLookup_ctl cn (view w cn) k).2.2.1
+    simp only [step, withOpen, hc, ho]
+    exact ⟨rfl, hl, _, if_pos rfl, hs.trans hst⟩
+  | keys c' =>
+    cases (show c' = c from hop)
+    have hs := (applyKeys_ctl (view w cn).keyNames (sortRows (view w cn).rows) cn).2.2.1
+    simp only [step, withOpen, hc, ho]
+    split
+    · rename_i cn1 l hk
+      rw [hk] at hs
+      exact ⟨rfl, hl, _, if_pos rfl, hs.trans hst⟩
+    · rename_i cn1 e hk
+      rw [hk] at hs
+      exact ⟨rfl, hl, _, if_pos rfl, hs.trans hst⟩
+
+/-- non-vacuity: a build in progress (lock held, connection in its transaction, two results pending) -/
+def exampleMidBuild : World :=
+  run World.init [.new 0 1 true, .start 0, .set 0 [97] ⟨[1], 5, 1, 1, []⟩, .set 0 [98] ⟨[2], 6, 1, 1, [⟨[97], false, false⟩]⟩]
+
+example : (exampleMidBuild.conns 0).map (fun cn => (cn.state, cn.pending.rows.length)) = some (.inTxn, 2) ∧
+    exampleMidBuild.lock = some 0 ∧ exampleMidBuild.committed.rows.length = 0 := by decide
+
 end LLBuild.BuildDB
